@@ -108,7 +108,10 @@ def record(mode, out):
             log["current"] = item.nodeid
 
     sel = os.environ.get("RVERIF_CONF_TESTS", DEFAULT_TESTS).split()
-    targets = [os.path.join(REPO, "tests", t) for t in sel] if sel else [os.path.join(REPO, "tests")]
+    # the corpus is rsome's own test-suite; a scratch copy of the package (RVERIF_REPO, used for self-tests of the checks)
+    # may come without it: then the suite of /repo drives the copy's code
+    troot = REPO if os.path.isdir(os.path.join(REPO, "tests")) else "/repo"
+    targets = [os.path.join(troot, "tests", t) for t in sel] if sel else [os.path.join(troot, "tests")]
     pytest.main(["-q", "-q", "--tb=no", "-p", "no:cacheprovider", "--timeout=600", "-W", "ignore"] + targets, plugins=[Plugin()])
     with open(out, "w") as f:
         json.dump(log["formulas"], f)
